@@ -1641,3 +1641,288 @@ def rule_lossy_marker(col, facts):
                 if any(x[1].endswith("options::Options::lossy") for x in expr_calls(e)):
                     col.bad(R, "%s:branches-on-lossy" % last_seg(name), "%s branches on options.lossy(): the slow-path decision must depend on the marker only" % last_seg(name), f.loc(b["ts"]))
         col.ok(R, "%s:no-branch-on-lossy-scan" % last_seg(name))
+
+
+# =============================================================================================
+# rules added after the third seeding round
+# =============================================================================================
+def rule_trim_needs_fraction_flag(col, facts):
+    """SIB-trim (scientific writers): every `*_scientific` writer may drop the `.0` of a one-digit mantissa
+    under trim_floats only if the format does not forbid an exponent without a fraction
+    (no_exponent_without_fraction() == false): all sibling back-ends test the flag before trim_floats(); one
+    that does not writes `1e20`, which the same format's parser rejects (ExponentWithoutFraction)."""
+    R = "SIB-trim"
+    n = 0
+    for f in facts.all_fns():
+        if f.crate != "lexical_write_float" or not f.short.endswith("::write_float_scientific"):
+            continue
+        for bb, c, a, d, t in f.calls():
+            if last_seg(callee_name(c)) != "trim_floats":
+                continue
+            n += 1
+            ok = any(strip_casts(e)[0] == "call" and last_seg(strip_casts(e)[1]) == "no_exponent_without_fraction" and p is False for _d, e, p in path_conditions(f, bb))
+            col.check(R, f.short.replace(WF, "") + ":trim-under-flag", ok,
+                      "trim_floats() is consulted without no_exponent_without_fraction() having been found false: with that flag the writer emits `1e20`, which the parser of the same format rejects", f.loc(f.blocks[bb]["ts"]))
+    col.floor(R, "trim_floats tests in scientific writers", n, 1)
+
+
+def rule_mantissa_plus_paths(col, facts):
+    """KEY-flags (mantissa sign, exactly-when): in WriteFloat::write_float a value that does not get `-` gets `+`
+    exactly when required_mantissa_sign(): every path on which needs_negative_sign() is false consults the
+    flag and nothing else about the value (a negative NaN needs the `+` too - the parser demands a sign)."""
+    from rules.core import enum_paths
+    if "format" not in facts.config:
+        return
+    R = "KEY-flags"
+    f = facts.fn(WF + "write::WriteFloat::write_float")
+    plus = set()
+    for i, b in enumerate(f.blocks):
+        if not f.live(i):
+            continue
+        for st in b["s"]:
+            if st[0] == "=" and st[1][1] and st[2][0] == "use" and st[2][1][0] == "k" and st[2][1][1].get("v") == 43:
+                plus.add(i)
+    tg = set()
+    for bb, c, a, d, t in f.calls():
+        if last_seg(callee_name(c)) == "is_special":
+            tg.add(bb)
+    col.check(R, "write_float:anchor", bool(tg) and bool(plus), "is_special() call / '+' store not found", f.loc())
+    if not tg or not plus:
+        return
+    n = 0
+    bad = None
+    for t, atoms, env in enum_paths(f, 0, tg, want_env=True):
+        neg = [p for e, p in atoms if strip_casts(e)[0] == "call" and last_seg(strip_casts(e)[1]) == "needs_negative_sign"]
+        if not neg or neg[-1] is not False:
+            continue
+        n += 1
+        req = [p for e, p in atoms if strip_casts(e)[0] == "call" and last_seg(strip_casts(e)[1]) == "required_mantissa_sign"]
+        wrote = bool(plus & env["__blocks__"])
+        extra = [show(e)[:40] for e, p in atoms if strip_casts(e)[0] == "call" and last_seg(strip_casts(e)[1]) in ("is_sign_positive", "is_sign_negative", "is_nan")]
+        if not req:
+            bad = "a non-negative path does not consult required_mantissa_sign() (other tests: %s)" % extra
+        elif wrote != (req[-1] is True):
+            bad = "required_mantissa_sign() is %s but '+' is %s (other tests on the path: %s)" % (req[-1], "written" if wrote else "not written", extra)
+    col.check(R, "write_float:plus-exactly-when-required", bad is None and n >= 2,
+              "%s: a value that is not written with `-` must get `+` exactly when the format requires a mantissa sign (also NaN with the sign bit set)" % bad, f.loc())
+
+
+def rule_unchecked_window(col, facts):
+    """GRD-window (integer parser): the overflow-free fast path accumulates with wrapping arithmetic; it is sound
+    only for at most overflow_digits(radix) digits *after the sign*.  The guard must compare the length of the
+    iterator's remaining slice (as_slice() of the integer iterator created after parse_sign) with exactly
+    overflow_digits(..): a longer window (`+ IS_SIGNED`, the whole input length) lets one more digit wrap
+    silently in radix >= 12."""
+    R = "GRD-window"
+    n = 0
+    for name in ("algorithm_complete", "algorithm_partial"):
+        f = facts.fn("lexical_parse_integer::algorithm::" + name)
+        found = []
+        for i, b in enumerate(f.blocks):
+            if not f.live(i):
+                continue
+            t = b["t"]
+            if t["k"] != "switch":
+                continue
+            e = strip_casts(op_expr(f, t["d"]))
+            if e[0] == "bin" and e[1] in ("Le", "Lt", "Ge", "Gt") and any(strip_casts(x)[0] == "call" and last_seg(strip_casts(x)[1]) == "overflow_digits" or
+                                                                       (strip_casts(x)[0] == "bin" and strip_casts(x)[1] in ("Add", "Sub") and any(strip_casts(y)[0] == "call" and last_seg(strip_casts(y)[1]) == "overflow_digits" for y in (strip_casts(x)[2], strip_casts(x)[3]))) for x in (e[2], e[3])):
+                found.append((i, e))
+        col.check(R, name + ":guard-present", len(found) >= 1, "no comparison with overflow_digits(..) found", f.loc())
+        for i, e in found:
+            n += 1
+            lhs, rhs = strip_casts(e[2]), strip_casts(e[3])
+            ok = e[1] == "Le" and rhs[0] == "call" and last_seg(rhs[1]) == "overflow_digits" and lhs[0] == "call" and last_seg(lhs[1]) == "len" and \
+                any(last_seg(c[1]) == "as_slice" for c in expr_calls(lhs)) and any(last_seg(c[1]) == "integer_iter" for c in expr_calls(lhs))
+            col.check(R, "%s:window#%d" % (name, n), ok,
+                      "`%s`: the wrapping fast path must be entered only when the digits remaining after the sign (integer_iter().as_slice().len()) number at most overflow_digits(radix), with nothing added" % show(e)[:160], f.loc(f.blocks[i]["ts"]))
+
+
+def rule_sign_in_accumulation(col, facts):
+    """UNIT-sign (integer parser): negative numbers are accumulated with subtraction inside the loop (the
+    value is already negative when the partial parser returns from inside it).  Both the checked and the
+    unchecked (overflow-free) family of loops therefore exist in a subtracting instance that is entered
+    under is_negative == true, and the accumulated value is never negated afterwards: a shared add-loop
+    followed by `wrapping_neg` loses the sign on every early return of the partial parser."""
+    R = "UNIT-sign"
+    n = 0
+    for name in ("algorithm_complete", "algorithm_partial"):
+        f = facts.fn("lexical_parse_integer::algorithm::" + name)
+        fam = {"unchecked": {"add": 0, "sub": 0, "sub_neg": 0}, "checked": {"add": 0, "sub": 0, "sub_neg": 0}}
+        for bb, c, a, d, t in f.calls():
+            cn = last_seg(callee_name(c))
+            if cn not in ("wrapping_add", "wrapping_sub", "checked_add", "checked_sub"):
+                continue
+            macs = f.macros(f.blocks[bb]["ts"])
+            if not any(m.startswith("parse_") and "digit" in m for m in macs):
+                continue
+            family = "checked" if any(m == "parse_digits_checked" for m in macs) else "unchecked"
+            kind = "add" if cn.endswith("add") else "sub"
+            fam[family][kind] += 1
+            n += 1
+            if kind == "sub":
+                negs = [p for _d, e, p in path_conditions(f, bb) if isinstance(p, bool) and "parse_sign" in show(e) and strip_casts(e)[0] == "proj"]
+                if negs and negs[-1] is True:
+                    fam[family]["sub_neg"] += 1
+        for family in ("unchecked", "checked"):
+            col.check(R, "%s:%s-subtracting-loop" % (name, family), fam[family]["sub"] >= 1 and fam[family]["sub_neg"] == fam[family]["sub"],
+                      "the %s digit loops have %d adding and %d subtracting accumulations (%d of them entered under is_negative): negative values must be built by subtraction inside the loop" % (family, fam[family]["add"], fam[family]["sub"], fam[family]["sub_neg"]), f.loc())
+        negs_after = [bb for bb, c, a, d, t in f.calls() if last_seg(callee_name(c)) == "wrapping_neg"]
+        col.check(R, name + ":no-late-negation", not negs_after, "the accumulated value is negated after the digit loop (wrapping_neg): the partial parser returns from inside the loop with the wrong sign", f.loc())
+    col.floor(R, "digit accumulations", n, 4)
+
+
+def rule_index_widening(col, facts):
+    """UNIT-widen (generic radix integer writer): table indices `2 * r` are computed after widening to usize; a
+    product taken in the value's own type wraps for u8 (2 * 200) and reads the wrong digit pair."""
+    if facts.config.startswith("compact") or not ("power-of-two" in facts.config or "radix" in facts.config):
+        return
+    R = "UNIT-widen"
+    n = 0
+    for name in ("write_digits", "write_step_digits"):
+        f = facts.fn("lexical_write_integer::algorithm::" + name, required=False)
+        if f is None:
+            continue
+        for bb, c, a, d, t in f.calls():
+            cn = callee_name(c)
+            if last_seg(cn) == "mul" and "ops::arith::Mul" in cn:
+                es = [strip_casts(op_expr(f, x)) for x in a]
+                if any(e[0] == "kc" and last_seg(e[1]) == "TWO" for e in es) and any(e[0] in ("var", "arg") for e in es):
+                    # (products with a remainder `value % radix^2` stay in range; the whole remaining value does not)
+                    n += 1
+                    col.bad(R, "%s:narrow-product#%d" % (name, n), "`%s`: the doubled table index is multiplied in the integer's own type before widening: for u8 values >= 128 the product wraps" % " * ".join(show(e) for e in es), f.loc(f.blocks[bb]["ts"]))
+        wide = 0
+        for i, b in enumerate(f.blocks):
+            for st in b["s"]:
+                if st[0] == "=" and st[2][0] == "bin" and st[2][1].startswith("Mul"):
+                    e = rvalue_expr(f, st[2], 0)
+                    if any(last_seg(c[1]) == "as_cast" for c in expr_calls(e)):
+                        wide += 1
+        if name == "write_digits":
+            col.check(R, name + ":wide-products", wide >= 1, "no usize product of as_cast(..) operands found (index computation moved?)", f.loc())
+
+
+def rule_naive_count_stages(col, facts):
+    """UNIT-stage (digit_count!(@naive)): every stage `value /= D; digits += k` runs under `value >= D` with the
+    same D (non-strict): with `>` a value equal to D keeps too few digits and the unchecked writer, which trusts
+    the count, writes before the caller's slice."""
+    if facts.config.startswith("compact") or "radix" not in facts.config:
+        return
+    R = "UNIT-stage"
+    n = 0
+    for f in facts.all_fns():
+        if f.crate != "lexical_write_integer" or "DigitCount" not in f.short or not f.short.endswith("::digit_count"):
+            continue
+        for i, b in enumerate(f.blocks):
+            if not f.live(i):
+                continue
+            for st in b["s"]:
+                if st[0] == "=" and st[2][0] == "bin" and st[2][1] == "Div" and any("digit_count" in m for m in f.macros(st[3])):
+                    e = rvalue_expr(f, st[2], 0)
+                    val, div = strip_casts(e[2]), strip_casts(e[3])
+                    if val[0] != "var":
+                        continue
+                    n += 1
+                    ok = False
+                    for _d, c, p in path_conditions(f, i):
+                        c = strip_casts(c)
+                        if c[0] == "bin" and strip_casts(c[2]) == val and strip_casts(c[3]) == div:
+                            if (c[1] == "Ge" and p is True) or (c[1] == "Lt" and p is False):
+                                ok = True
+                    col.check(R, "%s:stage#%d" % (f.short.split(" as ")[0].strip("<"), n), ok,
+                              "`%s` is not guarded by `%s >= %s`: a value equal to the divisor is under-counted" % (show(e), show(val), show(div)), f.loc(st[3]))
+    col.floor(R, "division stages of the naive digit count", n, 3)
+
+
+def rule_slice_length_pairing(col, facts):
+    """PAIR-slice (parse_number): the integer / fraction digit slices stored in Number are
+    `X.as_slice().get_unchecked(..n)` with n = byte.cursor() - X.cursor() for the *same* saved iterator X (or the
+    digit count for contiguous input).  A length measured from another saved position runs past the end of
+    the component (and, for the last one, past the input)."""
+    R = "PAIR-slice"
+    f = facts.fn(PF + "parse::parse_number")
+    n = 0
+    for bb, c, a, d, t in f.calls():
+        if last_seg(callee_name(c)) != "get_unchecked":
+            continue
+        recv = strip_casts(op_expr(f, a[0]))
+        rng = strip_casts(op_expr(f, a[1]))
+        base = [x for x in expr_calls(recv) if last_seg(x[1]) == "as_slice"]
+        if not base or rng[0] != "agg":
+            continue
+        n += 1
+        src = strip_casts(base[0][2][0])
+        while src[0] == "ref":
+            src = strip_casts(src[1])
+        length = strip_casts(rng[2][0])
+        # the length is a multi-definition local: look at each definition
+        defs = []
+        if length[0] == "var":
+            for bb2, j2, rv2, pr2 in f.defs().get(length[1], []):
+                if rv2[0] != "call":
+                    defs.append(strip_casts(rvalue_expr(f, rv2, 0)))
+        else:
+            defs.append(length)
+        bad = None
+        for e in defs:
+            if e[0] == "bin" and e[1] == "Sub":
+                sub = strip_casts(e[3])
+                if sub[0] == "call" and last_seg(sub[1]) == "cursor":
+                    who = strip_casts(sub[2][0])
+                    while who[0] == "ref":
+                        who = strip_casts(who[1])
+                    if who != src:
+                        bad = "length `%s` is measured from `%s` but the slice starts at `%s`" % (show(e), show(who), show(src))
+        col.check(R, "parse_number:digit-slice#%d" % n, bad is None, "%s: the stored digits run past the component" % bad, f.loc(f.blocks[bb]["ts"]))
+    col.floor(R, "digit slices taken in parse_number", n, 2)
+
+
+def rule_dragonbox_left_endpoint(col, facts):
+    """CFG-endpoint (Dragonbox): in the `r == deltai` case the left endpoint may be *accepted when it is an
+    integer* only if the interval includes it (even significand): the compute_mul_parity call whose
+    integer flag is used lies on paths with include_left_endpoint() == true; otherwise odd significands are
+    printed with a decimal that reads back as the predecessor."""
+    if facts.config.startswith("compact"):
+        return
+    R = "CFG-endpoint"
+    f = facts.fn(WF + "algorithm::compute_nearest_normal")
+    n = 0
+    for bb, c, a, d, t in f.calls():
+        if last_seg(callee_name(c)) != "compute_mul_parity":
+            continue
+        # is component .1 of the result read?
+        dest = d[0]
+        uses_int = False
+        for b in f.blocks:
+            for st in b["s"]:
+                if st[0] == "=" and st[2][0] == "use" and st[2][1][0] in ("cp", "mv") and st[2][1][1][0] == dest and st[2][1][1][1] == [1]:
+                    uses_int = True
+        arg0 = show(op_expr(f, a[0]))
+        if not uses_int or "Sub 1" not in arg0:
+            continue                       # the y (centre) test is a different rule of the algorithm
+        n += 1
+        ok = any(strip_casts(e)[0] == "call" and last_seg(strip_casts(e)[1]) == "include_left_endpoint" and p is True for _d, e, p in path_conditions(f, bb))
+        col.check(R, "compute_nearest_normal:integer-endpoint-needs-closed-interval", ok,
+                  "the integer test of the left endpoint (2f - 1) is used on a path where include_left_endpoint() was not found true: an open interval would accept its own boundary", f.loc(f.blocks[bb]["ts"]))
+    col.floor(R, "left-endpoint integer tests", n, 1)
+
+
+def rule_grisu_margins(col, facts):
+    """PAIR-margin (Grisu, compact): after scaling by the cached power the safe interval is shrunk by one unit on
+    each side: `upper.mant -= 1` and `lower.mant += 1`.  Both adjustments with the same sign widen one side and
+    digits outside the rounding interval can be produced."""
+    if not facts.config.startswith("compact"):
+        return
+    R = "PAIR-margin"
+    f = facts.fn(WF + "compact::grisu")
+    adj = []
+    for i, b in enumerate(f.blocks):
+        if not f.live(i):
+            continue
+        for st in b["s"]:
+            if st[0] == "=" and st[2][0] == "bin" and st[2][1].replace("WithOverflow", "") in ("Add", "Sub") and st[2][3][0] == "k" and st[2][3][1].get("v") == 1 and st[2][2][0] in ("cp", "mv") and st[2][2][1][1] == [0]:
+                who = f.names.get(st[2][2][1][0], "_%d" % st[2][2][1][0])
+                adj.append((who, st[2][1].replace("WithOverflow", ""), st[3]))
+    ops = {w: o for w, o, _ in adj}
+    col.check(R, "grisu:margins", ops.get("upper") == "Sub" and ops.get("lower") == "Add",
+              "the one-unit safety margins are %s (expected upper.mant - 1 and lower.mant + 1)" % sorted(ops.items()), f.loc())
